@@ -93,7 +93,8 @@ def rich_documents() -> dict:
                                                                                                                                   "detail": {"type": "object", "properties": {"why": S}}}}}}}},
              "parameters": {"Mode": {"name": "mode", "in": "query", "schema": {"type": "string", "enum": ["fast", "slow"]}}},
              "requestBodies": {"Inline": {"content": {"application/json": {"schema": {"type": "object", "properties": {"payload": {"type": "object", "properties": {"x": S}}}}}}}}}
-    docs = {"rich": gen.mkdoc(schemas=schemas, paths=paths, components=comps)}
+    from .. import zoo
+    docs = {"rich": gen.mkdoc(schemas=schemas, paths=paths, components=comps), "zoo": zoo.zoo_clean(), "zoo-warn": zoo.zoo_warn()}
     e2e = REPO / "end_to_end_tests"
     from ruamel.yaml import YAML
     for f in ["baseline_openapi_3.0.json", "baseline_openapi_3.1.yaml", "3.1_specific.openapi.yaml", "literal_enums.openapi.yaml"]:
@@ -192,7 +193,7 @@ def run(rep) -> None:
         for name, doc in docs.items():
             if any(x["diags"] for x in [base[names.index(name)]]):
                 rep.extra.setdefault("permutation_leg_skipped_documents_with_diagnostics", []).append(name)
-                if name == "rich":      # the hand-written family document must stay diagnostics-free, or the leg loses its richest input unnoticed
+                if name in ("rich", "zoo"):      # the hand-written family documents must stay diagnostics-free, or the leg loses its richest input unnoticed
                     raise tlc.TlcFailure(f"the rich document produces diagnostics and would be left out of the permutation leg: {base[names.index(name)]['diags'][:2]}")
                 continue
             for k in range(2 if quick else 5):
